@@ -432,6 +432,26 @@ def build(tier="quick", seed=0):
     pack.add(Obligation("C17.archive[RecordArchiver: day directories of the record's own time, two runs onto the same files]", lambda tier: prove_paths("C17.archive[RecordArchiver: day directories of the record's own time, two runs onto the same files]", th_archiver, judge_archiver, lambda m_, p: {}, allow_raise=("error",)),
                         replay=lambda w: {"call": "c17_archiver", "args": {}}, functions=FU + ("flow.record.stream:RecordArchiver.__init__",), mode="concrete history with a modelled clock"))
 
+    # the copy helper stream(src, dst): every record of the source, in order, is in the destination once the destination is closed
+    def th_copy_helper():
+        fresh_fs()
+        D = desc()
+        w = mk_stream("/abs/src.records")
+        written = []
+        for k in range(3):
+            r = it.call(D, [], {"n": SInt(vs[k]), "s": f"r{k}", "_generated": GEN})
+            it.call(it.getattr_(w, "write"), [r], {})
+            written.append(r)
+        it.call(it.getattr_(w, "close"), [], {})
+        src = it.call(sa.g["StreamReader"], ["/abs/src.records"], {})
+        dst = mk_json("/abs/dst.json")
+        it.call(base.g["stream"], [src, dst], {})
+        it.call(it.getattr_(dst, "close"), [], {})
+        return written, rd_json("/abs/dst.json"), None
+
+    pack.add(Obligation("C17.copy[stream(reader, writer): three records from a record stream into a JSON file]", lambda tier: prove_paths("C17.copy[stream(reader, writer): three records from a record stream into a JSON file]", th_copy_helper, judge_history, lambda m_, p: {}, allow_raise=("error",)),
+                        replay=lambda w: {"call": "c17_copy_helper", "args": {}}, functions=FU + ("flow.record.base:stream",), mode="concrete history, symbolic values"))
+
     # ------------------------------------------------------------------ canary / conformance / bounded
     def run_canary(tier):
         def th():
